@@ -1259,9 +1259,12 @@ class TrajectoryStore:
                     f'hash of base file {check_associated.path}'
                 )
 
-        # Here, the `path`, `dataset`, `traj_dim`, `traj_var` and `size_index`
-        # fields are lists to support merged stores. In this case, we have a
-        # single file, so we put the values into singleton lists.
+        # Here, the `path`, `dataset`, `traj_dim` and `traj_var` fields are
+        # lists to support merged stores. In this case, we have a single file,
+        # so we put the values into singleton lists. There is no `size_index`
+        # for a single file: a snapshot of the length taken here goes stale as
+        # soon as a trajectory is appended, and indexes into a single file are
+        # used as they are.
         return TrajectoryStore.NcFiles(
             path=[nc_file],
             fieldsets=set(fieldset_names),
@@ -1270,7 +1273,7 @@ class TrajectoryStore:
             traj_var=[traj_var],
             species=species,
             groups=groups,
-            size_index=[len(traj_dim)],
+            size_index=None,
             title=title,
             comment=comment,
             history=history,
